@@ -444,6 +444,10 @@ def coerce(v: V, ty: Ty) -> V:
         return list_mk(TInt, list_len(v), list_arr(v))
     if ty == TFunc and v.ty == TFunc:
         return v
+    if isinstance(ty, TDict) and isinstance(v.ty, TDict) and ty.v == v.ty.v and v.ty.k == TInt and isinstance(ty.k, TEnum):
+        # a dict display keyed by Enum members is built with Int keys (Interp.e_Dict); Enum values are Int-encoded, so the
+        # same term is the dict with the declared Enum key type
+        return dict_mk(ty, dict_dom(v), dict_val(v))
     raise Unsupported("cannot coerce %s to %s" % (v.ty, ty))
 
 
